@@ -62,6 +62,36 @@ def run(ck):
             ck.nontrivial(("ack", term_io.term_key(ev["f"])))
         except Exception as ex:
             ev["exc"] = "%s: %s" % (type(ex).__name__, str(ex)[:120])
+    # ---- converter OBJECTS reused for a sequence of formulas that share sub-formulas / applications
+    # An Ackermannizer that is reused keeps the applications of the earlier formulas and constrains them too:
+    # its output for f is judged as the Ackermannization of f AND (a = a) for every earlier application a.
+    shared_ack = None
+    for k, j in enumerate(uf_s[: (500 if quick else len(uf_s))]):
+        if k % 4 == 0:
+            shared_ack = rw.Ackermannizer(env)
+        f0 = term_io.build_public(j, env)
+        old_apps = [a for a in shared_ack.get_term_to_const_dict() if a.is_function_application()]
+        f = mgr.And([f0] + [mgr.EqualsOrIff(a, a) for a in old_apps]) if old_apps else f0
+        ev = new_ev("ack", "ack_reused_instance", f)
+        try:
+            o = shared_ack.do_ackermannization(f0)
+            ev["out"] = term_io.export(o)
+            ev["map"] = [{"app": term_io.export(t), "c": c.symbol_name()} for t, c in shared_ack.get_term_to_const_dict().items()]
+            ev["res"] = "ok"
+            ck.nontrivial(("ack_reused", term_io.term_key(ev["f"])))
+        except Exception as ex:
+            ev["exc"] = "%s: %s" % (type(ex).__name__, str(ex)[:120])
+    shared_cnf, shared_pol = rw.CNFizer(env), rw.PolarityCNFizer(env)
+    for j in qf_s[: (500 if quick else len(qf_s))]:
+        f = term_io.build_public(j, env)
+        for proc, conv in (("cnf_reused_instance", shared_cnf), ("polarity_cnf_reused_instance", shared_pol)):
+            ev = new_ev("cnf", proc, f)
+            try:
+                ev["out"] = term_io.export(conv.convert_as_formula(f))
+                ev["res"] = "ok"
+                ck.nontrivial((proc, term_io.term_key(ev["f"])))
+            except Exception as ex:
+                ev["exc"] = "%s: %s" % (type(ex).__name__, str(ex)[:120])
     verdicts, st = tlc.validate_events("Trace_Pure", evs, constants={"Seed": ck.seed % 1000, "Cap": 48 if quick else 128})
     ck.add_tlc(st)
     byid = {e["id"]: e for e in evs}
